@@ -49,6 +49,8 @@ def swarm_config(rng, idx, default_every=7):
 class FsmCtx(BaseCtx):
     prop = "C01"
     judge_model = True
+    soft = False            # soft: a model mismatch is not a verdict, the model is re-synchronised
+    regime_exit = True      # stop judging when the single-connection regime (C12a) is left
 
     def __init__(self, cfg, tier):
         BaseCtx.__init__(self, cfg, tier)
@@ -372,8 +374,10 @@ class FsmCtx(BaseCtx):
         cell = "%s/%s" % (phase_before, label)
         toks, escapes, handler = self.observe(pos)
         self.check_escapes(escapes, cell)
+        if self.done:
+            return
         self.note_open(toks)
-        if not self.regime_check(toks):
+        if self.regime_exit and not self.regime_check(toks):
             self.left_regime = True
             self.done = True
             self.stats["left_regime"] += 1
@@ -398,6 +402,14 @@ class FsmCtx(BaseCtx):
     def judge(self, op, t_before, now, evs, toks, cell, phase_before):
         w = self.world
         m = self.model
+        if self.soft:
+            m.time_passes(now)
+            m2 = M.match_events(m, evs, toks, now)
+            if m2 is None or w.state() not in m2.reported():
+                self.stats["model_resync"] += 1
+                m2 = self.resync()
+            self.model = m2
+            return
         if now > t_before + M.EPS:
             missed = m.missed(now)
             if missed:
@@ -431,6 +443,30 @@ class FsmCtx(BaseCtx):
                 raise Violation(self.prop, "state", "%s/rest-reports-%s-expected-%s" % (cell, rst, "|".join(m2.reported())),
                                 "GET state reports %r; the model is in %s" % (rst, m2.phase))
 
+    def resync(self):
+        """Soft mode: rebuild the model's discrete state from what the agent reports."""
+        w = self.world
+        m = M.Model(self.cfg)
+        m.nconn = len(w.conns)
+        st = w.state()
+        m.phase = {"IDLE": "Idle", "ACTIVE": "Idle", "CONNECT": "Connect", "OPENSENT": "OpenSent",
+                   "OPENCONFIRM": "OpenConfirm", "ESTABLISHED": "Established"}.get(st, "Idle")
+        m.stopped = self.model.stopped
+        m.deadline = None
+        live = w.live_conns()
+        if m.phase == "Connect":
+            pend = [c.cid for c in live if c.state == "connecting"]
+            m.conn = pend[-1] if pend else None
+        elif m.phase != "Idle":
+            up = [c.cid for c in live if c.readable()]
+            m.conn = up[-1] if up else None
+            try:
+                m.H = int(w.factory.fsm.hold_time)
+            except Exception:
+                m.H = None
+        m.closing = set(c.cid for c in live if c.closing())
+        return m
+
     @staticmethod
     def abs_tok(t):
         if t[0] == "tx":
@@ -442,7 +478,7 @@ class FsmCtx(BaseCtx):
 
 class FsmProfile(BaseProfile):
     id = "C01"
-    runs = {"quick": 6000, "thorough": 150000}
+    runs = {"quick": 40000, "thorough": 1500000}
     rule = ("one run = seeded swarm configuration + up to 60 environment ops (connect results, whole peer messages of "
             "the C01 alphabet, peer close/reset, explicit timer firings with tie index, partial time advances, operator "
             "stop/start/state via REST, delayed close completion); half of the runs first steer to a (model state, event) "
